@@ -39,6 +39,14 @@ def preprocess (o : Opts) (gs : GlyphSet) : Except GErr GlyphSet :=
       | .ok st2 => .ok st2.gs
     else .ok st.gs
 
+/-- `_GlyphSet.from_layer(..., skipExportGlyphs=skip)` (the skip-export splice, only when the list is non-empty), then the
+    pre-processor's filters -/
+def preprocessSkip (o : Opts) (skip : List String) (gs : GlyphSet) : Except GErr GlyphSet :=
+  if skip.isEmpty then preprocess o gs
+  else match skipExport skip (fun _ => true) gs with
+    | .error e => .error e
+    | .ok st => preprocess o st.gs
+
 structure TTPoint where
   x : Int
   y : Int
